@@ -1093,6 +1093,11 @@ pub fn c07(thorough: bool, seed: u64) -> CheckOutput {
                 cmd.arg("child").arg("c07").arg(seed.to_string()).arg(n_cases.to_string()).arg(k.to_string());
                 cmd.env("TZ", ["UTC", "Asia/Tokyo", "America/New_York", "Pacific/Chatham"][k % 4]);
                 cmd.env("PFV_NONCE", format!("{}", k));
+                cmd.env("LANG", ["C", "tr_TR.UTF-8", "de_DE.UTF-8", "ja_JP.UTF-8"][(k / 2) % 4]);
+                cmd.env("LC_ALL", ["C", "tr_TR.UTF-8", "de_DE.UTF-8", "ja_JP.UTF-8"][(k / 2) % 4]);
+                if k % 3 == 0 {
+                    cmd.env("HOME", "/nonexistent").env("RUST_BACKTRACE", "full").env("PFV_PADDING", "x".repeat(50_000));
+                }
                 cmd.current_dir(if k % 2 == 0 { "/" } else { "/tmp" });
                 cmd.stdout(Stdio::piped()).stderr(Stdio::null());
                 cmd.spawn().expect("spawn")
